@@ -229,10 +229,27 @@ def r02_3_hoisted_projection(ctx: Ctx, rule: str = "R02.3") -> None:
     g = m.func(SQL_ENGINE, "Engine._append_binary_to_select")
     gp = [p for p in g.params if p != "self"]
     opn, lhs, rhs = gp[0], gp[1], gp[2]
-    needs = []
+    # names that carry the needs-projection flag of an operand: the second result of <operand>.strip() and its copies
+    origin: dict[str, set[str]] = {}
     for n in ast.walk(g.node):
-        if isinstance(n, ast.Assign) and isinstance(n.value, ast.Call) and call_attr(n.value) == "strip" and isinstance(n.targets[0], ast.Tuple):
-            needs.append(src(n.targets[0].elts[1]))
+        if isinstance(n, ast.Assign) and isinstance(n.value, ast.Call) and call_attr(n.value) == "strip" and isinstance(n.targets[0], ast.Tuple) and isinstance(n.value.func, ast.Attribute):
+            origin.setdefault(src(n.targets[0].elts[1]), set()).add(src(n.value.func.value))
+    changed = True
+    while changed:
+        changed = False
+        for n in ast.walk(g.node):
+            if not isinstance(n, ast.Assign) or len(n.targets) != 1:
+                continue
+            pairs = []
+            t, v = n.targets[0], n.value
+            if isinstance(t, ast.Name):
+                pairs.append((t, v))
+            elif isinstance(t, ast.Tuple) and isinstance(v, ast.Tuple) and len(t.elts) == len(v.elts):
+                pairs.extend(zip(t.elts, v.elts))
+            for tt, vv in pairs:
+                if isinstance(tt, ast.Name) and isinstance(vv, ast.Name) and vv.id in origin and not origin[vv.id] <= origin.get(tt.id, set()):
+                    origin.setdefault(tt.id, set()).update(origin[vv.id])
+                    changed = True
     seen = set()
     for idx, p in _join_paths(ctx, g, opn):
         if p.outcome != "return":
@@ -244,7 +261,8 @@ def r02_3_hoisted_projection(ctx: Ctx, rule: str = "R02.3") -> None:
         b = _resolve_deep(p, pr) if pr is not None else None
         from ..astutil import names_read
 
-        decide = [st for st in p.steps[idx:] if st.kind == "cond" and set(needs) <= names_read(st.node)]
+        decide = [st for st in p.steps[idx:] if st.kind == "cond" and {lhs, rhs} <= set().union(*[origin[x] for x in names_read(st.node) if x in origin])]
+        needs = [x for x in names_read(decide[-1].node) if x in origin] if decide else []
         if not decide:
             raise AnalysisError("the Join arm no longer decides the hoisted projection on both strip() results together")
         from ..facts import step_facts
